@@ -1,5 +1,3 @@
 SPECIFICATION TSpec
-CONSTANT
-  KnownF17 = TRUE
 POSTCONDITION TraceAccepted
 CHECK_DEADLOCK FALSE
